@@ -217,6 +217,28 @@ CHECKS["C10"] = {
     "assumptions": ["toolchain go1.26.8 (newer than the repository's 1.23.5) is used to get testing/synctest"],
 }
 
+CHECKS["C02"] = {
+    "title": "spool survives a crash at any instant",
+    "go": GO126,
+    "level": "fault_enumeration",
+    "generate": [{"cmd": ["python3", "{root}/tools/instr_vos.py", "{repo}/internal/target/queue/queue.go", "{out}"],
+                  "out": "queue_vos.go", "replaces": "internal/target/queue/queue.go"}],
+    "units": [
+        {"name": "queue", "pkg": "internal/target/queue", "run": "^TestVerifC02",
+         "overlay": dict(QUEUE_COMMON, **{"verif_c01_test.go": "harness/C01/queue_test.go", "verif_c02_test.go": "harness/C02/crash_test.go"}), "overlay_abs": VERIFX},
+    ],
+    "quick": {"n": 160, "shards": 16},
+    "thorough": {"n": 800, "shards": 16},
+    "min_nontrivial": 50,
+    "level_text": "fault enumeration: scenarios are sampled (rapid), but for each scenario every crash point of the recorded file-system operation log is enumerated "
+                  "(before each operation, torn writes, un-fsynced data dropped; depth 2 in the thorough tier) and a fresh queue recovers on the reconstructed image; "
+                  "invariants relate pre-crash and post-crash events.",
+    "level_note": "queue.go is compiled against a logging replacement of package os (regenerated from /repo on every run); directory entries are assumed durable in issue order; "
+                  "file-system errors are not injected; built with go1.26.8 for testing/synctest",
+    "technique": "property-based scenario generation (rapid) + exhaustive crash-point enumeration over a recorded file-system log, invariant oracle",
+    "assumptions": ["toolchain go1.26.8 (newer than the repository's 1.23.5) is used to get testing/synctest"],
+}
+
 # properties deliberately not claimed: {"property_id":..., "reason":...}
 NOT_APPLICABLE = []
 
